@@ -10,3 +10,5 @@ import LyModel.Props.C01Lyb
 #print axioms LyModel.Props.C01Lyb.lyb_revision_pack_range_fails
 #print axioms LyModel.Props.C01Lyb.absorb_byte_injective
 #print axioms LyModel.Props.C01Lyb.hash_multi_state_injective
+#print axioms LyModel.Props.C01Lyb.lyb_skip_lands_at_end_fails
+#print axioms LyModel.Props.C01Lyb.lyb_skip_lands_at_end_nested_fails
